@@ -572,6 +572,61 @@ pub fn scenarios(t: &Tables, seeds: &[String], seed: u64, n_small: usize, n_mate
             count += 1;
         }
     }
+    // promotion races: pawns one step from promotion on both sides with officers to capture on the last ranks and a
+    // large material imbalance (capture-promotions deep in quiescence swing the score by more than a queen)
+    count = 0;
+    tries = 0;
+    while count < n_fam / 2 && tries < 100000 {
+        tries += 1;
+        let mut used = std::collections::HashSet::new();
+        let mut pcs: Vec<(u32, u32)> = Vec::new();
+        let mut put = |pcs: &mut Vec<(u32, u32)>, used: &mut std::collections::HashSet<u32>, s: u32, c: u32| {
+            if used.insert(s) {
+                pcs.push((s, c));
+            }
+        };
+        for _ in 0..rng.gen_range(1..=4) {
+            put(&mut pcs, &mut used, 48 + rng.gen_range(1..=8u32), 1); // white pawns on the 7th
+        }
+        for _ in 0..rng.gen_range(1..=4) {
+            put(&mut pcs, &mut used, 8 + rng.gen_range(1..=8u32), 7); // black pawns on the 2nd
+        }
+        for _ in 0..rng.gen_range(1..=4) {
+            let kind = [2u32, 3, 4, 5][rng.gen_range(0..4)];
+            put(&mut pcs, &mut used, 56 + rng.gen_range(1..=8u32), kind + 6); // black officers on the 8th
+        }
+        for _ in 0..rng.gen_range(1..=4) {
+            let kind = [2u32, 3, 4, 5][rng.gen_range(0..4)];
+            put(&mut pcs, &mut used, rng.gen_range(1..=8u32), kind); // white officers on the 1st
+        }
+        for _ in 0..rng.gen_range(0..=3) {
+            let kind = [2u32, 3, 4, 5, 5][rng.gen_range(0..5)];
+            let col = rng.gen_range(0..2u32);
+            put(&mut pcs, &mut used, rng.gen_range(17..=48u32), kind + 6 * col);
+        }
+        let mut ks = 0;
+        for kc in [6u32, 12] {
+            for _ in 0..20 {
+                let sq = rng.gen_range(17..=48u32);
+                if !used.contains(&sq) {
+                    put(&mut pcs, &mut used, sq, kc);
+                    ks += 1;
+                    break;
+                }
+            }
+        }
+        if ks != 2 {
+            continue;
+        }
+        let stm = rng.gen_range(0..2u32);
+        let b = crate::misc::board_from(t, &pcs, stm, 0, 0);
+        let other = if stm == 0 { PieceColor::Black } else { PieceColor::White };
+        if is_check(&b, other) || generate_moves(&b, MoveGenerationMode::AllMoves, &t.hasher).is_empty() {
+            continue;
+        }
+        out.push(json!({"tag": "fam", "cmd": format!("position fen {}", to_fen(&b, 0, 1))}));
+        count += 1;
+    }
     // third repetition on offer
     count = 0;
     tries = 0;
